@@ -38,6 +38,45 @@ for _h in HOOKS:
     setattr(SimListener, _h, _mk(_h))
 
 
+def _mk_counting(hook):
+    def f(self, *args):
+        self.per_hook[hook] = self.per_hook.get(hook, 0) + 1
+        self.w.count("probe.partial_listener_calls")
+    f.__name__ = hook
+    return f
+
+
+def make_partial(w, hooks, reference):
+    """A listener that overrides only ``hooks`` (CallbackListener registers exactly the overridden ones). It counts its
+    calls per hook; ``reference`` is a listener overriding every hook that was registered before it: from now on both
+    must hear the same number of announcements of each of ``hooks``."""
+    cls = type("PartialListener", (CallbackListener,), dict((h, _mk_counting(h)) for h in hooks))
+    p = cls.__new__(cls)
+    p.w = w
+    p.hooks = list(hooks)
+    p.per_hook = {}
+    p.reference = reference
+    p.base = dict(reference.per_hook_all) if reference is not None else {}
+    CallbackListener.__init__(p)
+    return p
+
+
+def check_partials(w, disc):
+    for lid, p in sorted(getattr(w, "listeners", {}).items()):
+        if not hasattr(p, "hooks") or p.reference is None:
+            continue
+        if not any(v is p.reference for v in w.listeners.values()):
+            p.reference = None   # the full listener it was compared with is gone
+            continue
+        for h in p.hooks:
+            heard = p.per_hook.get(h, 0)
+            full = p.reference.per_hook_all.get(h, 0) - p.base.get(h, 0)
+            if heard != full:
+                raise Violation("C19.partial_listener." + ("missed" if heard < full else "extra"), h,
+                                "a listener overriding only %s heard %d announcements of %s, a listener overriding "
+                                "every hook heard %d in the same time (%s)" % (sorted(p.hooks), heard, h, full, disc))
+
+
 class PassiveListener(SimListener):
     pass
 
@@ -113,6 +152,7 @@ class ShadowListener(SimListener):
         self.ref = {}         # id(instance) -> id(definition) or None
         self.top = {}         # id(netlist) -> id(instance) or None
         self.data = {}        # id(element) -> dict
+        self.per_hook_all = {}
         self.strict_before = strict_before
         super().__init__(w)
         self.sync()
@@ -157,6 +197,7 @@ class ShadowListener(SimListener):
     def on(self, hook, args):
         self.calls += 1
         self.cur_hook = hook
+        self.per_hook_all[hook] = self.per_hook_all.get(hook, 0) + 1
         self.w.count("probe.announcements")
         for a in args[:2]:
             if kind_of(a) is not None:
@@ -315,6 +356,9 @@ def _(w, e):
         l = GcInsideListener(w, e.get("every", 5))
     elif kind == "veto":
         l = VetoListener(w, e["hook"], e.get("at", 1))
+    elif kind == "partial":
+        shadows = [v for k, v in sorted(w.listeners.items()) if isinstance(v, ShadowListener)]
+        l = make_partial(w, e["hooks"], shadows[0] if shadows else None)
     else:
         raise oplang.HarnessError("listener kind %r" % kind)
     w.listeners[e["id"]] = l
